@@ -7,7 +7,7 @@ from ..model import AnalysisError, norm_text
 from ..regs import class_mro
 from ..ruleir import leaves
 from ..terms import T, children, walk
-from ..tutil import atom, cases, expand, specialise, unseq
+from ..tutil import atom, cases, expand, norm_seq, specialise, unseq
 from .common import loc_of
 
 TR = "autograd.tracer"
@@ -158,6 +158,7 @@ def wrapper(ctx, world):
         """t enumerates elt_pred(argnum-term, box-term) for (argnum, box) in boxed_args, in order, unfiltered;
         the pairs may be taken from boxed_args itself or from one of its columns zip(*boxed_args)[i]"""
         never = lambda x: False
+        t = norm_seq(t)
         col = column(t)
         if col is not None:
             # the bare column: elements are argnum (0) / box (1) themselves
@@ -259,10 +260,19 @@ def _notrace_table(world):
     """qualified name of the registry register_notrace(trace_type, fun) writes (TABLE[trace_type].add(fun)): the table
     is identified by its writer, not by its name"""
     r, sy, m, fn, sc = eval_function(world, TR, "register_notrace")
+    cands = []  # (container term, added value)
     for e in sc.effects:
         for t in walk(e):
-            if t.op == "call" and t.fn.op == "attr" and t.fn.name == "add" and t.fn.obj.op == "sub" and t.fn.obj.obj.op == "ref" and t.fn.obj.idx is sy["#0"] and len(t.args) == 1 and t.args[0] is sy["#1"]:
-                return t.fn.obj.obj.ref.qual
+            if t.op == "call" and t.fn.op == "attr" and t.fn.name == "add" and len(t.args) == 1 and not t.kw:
+                cands.append((t.fn.obj, t.args[0]))
+    for v in sc.vars.values():
+        # bucket = TABLE[trace_type]; bucket.add(fun): the set reached through a local name
+        if v is not None and v.op == "grow" and v.how == "add":
+            cands.append((v.obj, v.val))
+    for obj, val in cands:
+        obj = unseq(expand(world.ev, obj, ()))
+        if obj.op == "sub" and obj.obj.op == "ref" and obj.idx is sy["#0"] and val is sy["#1"]:
+            return obj.obj.ref.qual
     raise AnalysisError("register_notrace no longer adds the function to a module-level table indexed by the node type")
 
 
@@ -563,6 +573,8 @@ def trace_id_uses(ctx, world):
                     reads.append(x)
             # locals copied from reads (one assignment level, to a fixpoint)
             changed = True
+            packed = {}  # local name bound to a tuple display -> (arity, positions holding a trace id)
+            is_id = lambda v: (v in reads) or (isinstance(v, ast.Name) and v.id in tainted)
             while changed:
                 changed = False
                 for x in own:
@@ -572,6 +584,20 @@ def trace_id_uses(ctx, world):
                             if x.targets[0].id not in tainted:
                                 tainted.add(x.targets[0].id)
                                 changed = True
+                        if isinstance(v, ast.Tuple) and any(is_id(e) for e in v.elts):
+                            # state = (boxes, trace, node_type): a packed local state; its trace positions are remembered
+                            ar, pos = packed.get(x.targets[0].id, (len(v.elts), set()))
+                            new_pos = pos | {i for i, e in enumerate(v.elts) if is_id(e)}
+                            if ar == len(v.elts) and new_pos != pos or x.targets[0].id not in packed:
+                                packed[x.targets[0].id] = (ar if ar == len(v.elts) else -1, new_pos)
+                                changed = True
+                    elif isinstance(x, ast.Assign) and len(x.targets) == 1 and isinstance(x.targets[0], (ast.Tuple, ast.List)) and isinstance(x.value, ast.Name) and x.value.id in packed:
+                        ar, pos = packed[x.value.id]
+                        if ar == len(x.targets[0].elts):
+                            for i, t_ in enumerate(x.targets[0].elts):
+                                if i in pos and isinstance(t_, ast.Name) and t_.id not in tainted:
+                                    tainted.add(t_.id)
+                                    changed = True
                     elif isinstance(x, ast.Assign) and len(x.targets) == 1 and isinstance(x.targets[0], (ast.Tuple, ast.List)) and isinstance(x.value, (ast.Tuple, ast.List)) and len(x.value.elts) == len(x.targets[0].elts):
                         for t_, v in zip(x.targets[0].elts, x.value.elts):
                             if isinstance(t_, ast.Name) and ((v in reads) or (isinstance(v, ast.Name) and v.id in tainted)) and t_.id not in tainted:
@@ -580,9 +606,28 @@ def trace_id_uses(ctx, world):
             for x in own:
                 if isinstance(x, ast.Name) and isinstance(x.ctx, ast.Load) and x.id in tainted:
                     reads.append(x)
+            # a packed state may only be unpacked (same arity), returned, or rebound: then packing an id into it is a copy
+            packed_ok = set()
+            for nm_, (ar, pos) in packed.items():
+                good = ar > 0
+                for x in own:
+                    if isinstance(x, ast.Name) and x.id == nm_ and isinstance(x.ctx, ast.Load):
+                        px = getattr(x, "_parent", None)
+                        if isinstance(px, ast.Return) and px.value is x:
+                            continue
+                        if isinstance(px, ast.Assign) and px.value is x and len(px.targets) == 1 and isinstance(px.targets[0], (ast.Tuple, ast.List)) and len(px.targets[0].elts) == ar and all(isinstance(t_, ast.Name) for t_ in px.targets[0].elts):
+                            continue
+                        good = False
+                if good:
+                    packed_ok.add(nm_)
             for rd in reads:
                 n += 1
                 ok, why = _use_ok(world, mod, rd, tainted)
+                if not ok:
+                    p_ = getattr(rd, "_parent", None)
+                    pp_ = getattr(p_, "_parent", None)
+                    if isinstance(p_, ast.Tuple) and isinstance(pp_, ast.Assign) and pp_.value is p_ and len(pp_.targets) == 1 and isinstance(pp_.targets[0], ast.Name) and pp_.targets[0].id in packed_ok:
+                        ok = True
                 inst = f"{fq}:{norm_text(getattr(rd, '_parent', rd))[:60]}"
                 if ok:
                     ctx.ob("A12.cmp", inst, True, loc_of(mod, rd))
